@@ -224,7 +224,11 @@ def _model_loop(E, dt, steps, msteps, dtid, k, ctx, modtext, modname):
                 break
             ns = fresh_namespace(modtext, modname)
         if ctx.get('in_loop') and st['form'] in W.ASYNC_FORMS:
-            _fail(E, idx, ['ExistingEventLoopError'], False, None)
+            names = ['ExistingEventLoopError']
+            if (st.get('want') or '').startswith('tb'):
+                # the documented error is itself compared with a traceback want
+                names.append('GotWantException')
+            _fail(E, idx, names, None if len(names) > 1 else False, None)
             E.silent.add('line')
             E.notes.append('top-level await while the caller runs a loop')
             anything = True
